@@ -64,6 +64,14 @@ def _nontrivial_signature(j, out):
     return sig.hexdigest()[:16], trivial
 
 
+def _evaluate_isolated(args):
+    check, wl, cfg, dec, ctx = args
+    out, viols = check.evaluate(wl, cfg, dec, ctx)
+    if out is not None:
+        out.result = None
+    return out, viols, dec.log
+
+
 def make_job_fn(check):
     def job_fn(job):
         j = job["index"]
@@ -96,7 +104,11 @@ def make_job_fn(check):
             r = random.Random(rs)
             cfg = check.draw_config(r, wl, tier)
             dec = Decisions(seed=r.getrandbits(64))
-            out, viols = check.evaluate(wl, cfg, dec, ctx)
+            if getattr(check, "ISOLATE_RUNS", False):
+                out, viols, dec_log = batch._isolated(_evaluate_isolated, (check, wl, cfg, dec, ctx), job.get("per_run_limit", 600.0), arm_watchdog=False)
+                dec.log = dec_log
+            else:
+                out, viols = check.evaluate(wl, cfg, dec, ctx)
             stats["runs"] += 1
             if out is None:
                 continue
